@@ -439,8 +439,10 @@ func (c *Ctx) copyBuiltin(st *State, reach string, args []Val, pos token.Pos) Va
 		}
 		c.n++
 		j := fmt.Sprintf("cj_%d", c.n)
-		c.assume(reach, fmt.Sprintf("(forall ((%s %s)) (! (= (select %s %s) (ite (and (bvsle %s %s) (bvslt %s (bvadd %s %s))) %s (select (select %s %s) %s))) :pattern ((select %s %s))))",
-			j, BV64, inner, j, d.Off, j, j, d.Off, n, srcSel(j), old, d.Arr, j, inner, j))
+		cbody := fmt.Sprintf("(= (select %s %s) (ite (and (bvsle %s %s) (bvslt %s (bvadd %s %s))) %s (select (select %s %s) %s)))", inner, j, d.Off, j, j, d.Off, n, srcSel(j), old, d.Arr, j)
+		cfull := fmt.Sprintf("(forall ((%s %s)) (! %s :pattern ((select %s %s))))", j, BV64, cbody, inner, j)
+		c.registerForall(cfull, []string{j}, []string{BV64}, cbody)
+		c.assume(reach, cfull)
 		c.quantified = true
 		st.mem[k] = c.name("ms", st.hsort["M:"+k], fmt.Sprintf("(store %s %s %s)", old, d.Arr, inner))
 	}
@@ -593,6 +595,24 @@ func (c *Ctx) contractCall(fr *Frame, ct *Contract, callee *ssa.Function, com *s
 		res = c.freshVal(resT, "ret")
 	}
 	penv := &CEnv{c: c, st: st, old: old, lookup: mkLookup(names, args, res), pkg: names.pkg, topBefore: topBefore}
+	if len(ct.Ghosts) > 0 {
+		// ghost results are existentially quantified for the caller: fresh values
+		gv := map[string]CVal{}
+		for _, g := range ct.Ghosts {
+			t := basicTypes[g.Type]
+			if t == nil {
+				cerr("ghost result %s: unsupported type %s", g.Name, g.Type)
+			}
+			gv[g.Name] = CVal{V: c.freshVal(t, "ghost_"+g.Name), T: t}
+		}
+		base := penv.lookup
+		penv.lookup = func(name string, old bool) (CVal, bool) {
+			if v, ok := gv[name]; ok {
+				return v, true
+			}
+			return base(name, old)
+		}
+	}
 	for _, en := range ct.Ensures {
 		c.assume(reach, c.evalBool(penv, en.Expr, en.Text))
 	}
